@@ -6,6 +6,7 @@
 //! exit 2: machinery failure (never a verdict).
 
 mod dformat;
+mod disk;
 mod framework;
 mod hyb;
 mod memdrive;
@@ -13,6 +14,8 @@ mod memmodel;
 mod oracle_r;
 mod props_hyb;
 mod props_hyb2;
+mod props_c07;
+mod props_c10;
 mod props_mem;
 mod seq;
 mod simio;
@@ -28,6 +31,8 @@ pub fn all_props() -> Vec<Box<dyn framework::Prop>> {
     for p in props_hyb2::props() {
         v.push(Box::new(p));
     }
+    v.push(Box::new(props_c10::C10Prop));
+    v.push(Box::new(props_c07::C07Prop));
     v
 }
 
